@@ -321,4 +321,33 @@ theorem serial_old_drops_failure :
     (serialRun 3 (fun i => i == 1)).raisedAt = some 1 := by
   decide +kernel
 
+/-- **C13.0** (what the tie compares) `outputs s s'` — the action log the driver prints for one processed batch member and
+    that is diffed against the real `run_backend_parallel` — contains a `yield` line for exactly the pairs newly appended
+    to `yielded` (with the index the attempt was submitted for as the owner of the result), a `raise` line exactly when the
+    status goes from running to raised, and nothing else but `submit` lines -/
+theorem outputs_spec (s s' : State) (o : Out) :
+    o ∈ outputs s s' ↔
+      (∃ p ∈ s'.yielded.drop s.yielded.length, o = Out.yield p.1 (s'.subs.getD p.2 0) p.2) ∨
+      (∃ p ∈ (s'.subs.drop s.subs.length).zipIdx,
+        o = Out.submit p.1 (s'.inflight.length - (s'.subs.length - s.subs.length) + p.2 + 1)) ∨
+      (∃ j a, s.status = .running ∧ s'.status = .raised j a ∧ o = Out.raise j a) := by
+  unfold outputs
+  simp only [List.mem_append, List.mem_map]
+  constructor
+  · rintro ((⟨p, hp, rfl⟩ | ⟨p, hp, rfl⟩) | h)
+    · exact Or.inl ⟨p, hp, rfl⟩
+    · exact Or.inr (Or.inl ⟨p, hp, rfl⟩)
+    · refine Or.inr (Or.inr ?_)
+      split at h
+      · rename_i j a hs hs'
+        simp only [List.mem_singleton] at h
+        exact ⟨j, a, hs, hs', h⟩
+      · simp at h
+  · rintro (⟨p, hp, rfl⟩ | ⟨p, hp, rfl⟩ | ⟨j, a, hs, hs', rfl⟩)
+    · exact Or.inl (Or.inl ⟨p, hp, rfl⟩)
+    · exact Or.inl (Or.inr ⟨p, hp, rfl⟩)
+    · refine Or.inr ?_
+      rw [hs, hs']
+      simp
+
 end Yaqs.Sched
